@@ -1,9 +1,10 @@
 import re
 from copy import deepcopy
 from fractions import Fraction
-from xml.sax.saxutils import escape
+from xml.sax.saxutils import escape, quoteattr
 
 from bs4 import BeautifulSoup, NavigableString
+from bs4.formatter import XMLFormatter
 
 from ..base import (
     BaseReader, BaseWriter, CaptionSet, CaptionList, Caption, CaptionNode,
@@ -66,6 +67,18 @@ MICROSECONDS_PER_UNIT = {
 }
 
 DFXP_DEFAULT_LANGUAGE_CODE = "en"
+
+
+class AttributeEscapingFormatter(XMLFormatter):
+    """Leaves text alone (the writers escape it themselves, and it contains
+    hand-assembled markup) but escapes & < > in attribute values, which would
+    otherwise be written raw and make the document ill-formed.
+    """
+    def __init__(self):
+        super().__init__(entity_substitution=None)
+
+    def attribute_value(self, value):
+        return escape(value)
 
 
 class DFXPReader(BaseReader):
@@ -383,7 +396,8 @@ class DFXPWriter(BaseWriter):
 
             body.append(div)
         self.region_creator.cleanup_regions()
-        caption_content = dfxp.prettify(formatter=None)
+        caption_content = dfxp.prettify(
+            formatter=AttributeEscapingFormatter())
         return caption_content
 
     @staticmethod
@@ -470,17 +484,17 @@ class DFXPWriter(BaseWriter):
 
             content_with_style = _recreate_style(node.content, dfxp)
             for style, value in list(content_with_style.items()):
-                styles += f' {style}="{value}"'
+                styles += f' {style}={quoteattr(value)}'
             if node.layout_info:
                 region_id, region_attribs = (
                     self.region_creator.get_positioning_info(
                         lang, caption_set, caption, node
                     ))
-                styles += f' region="{region_id}"'
+                styles += f' region={quoteattr(region_id)}'
                 if self.write_inline_positioning:
                     styles += ' ' + ' '.join(
                         [
-                            f'{k_}="{v_}"'
+                            f'{k_}={quoteattr(v_)}'
                             for k_, v_ in list(region_attribs.items())
                         ]
                     )
